@@ -77,6 +77,7 @@ type C16Op struct {
 	Name  string    `json:"name,omitempty"`
 	Inst  int       `json:"inst"`
 	Fact  int64     `json:"fact"` // exec: the fact value; every op: the fact value of the probes after it
+	ViaKB bool      `json:"via_kb,omitempty"` // removelib through KnowledgeBase.RemoveRuleEntry on the library's own knowledge base (same meaning)
 }
 
 type C16Hist struct {
@@ -410,7 +411,12 @@ func (r *c16Runner) apply(op C16Op) {
 			r.stats["accepted builds"]++
 		}
 	case "removelib":
-		r.lib.RemoveRuleEntry(op.Name, name, ver)
+		if kb, ok := r.lib.Library[ast.GetKnowledgeBaseKey(name, ver)]; ok && op.ViaKB {
+			kb.RemoveRuleEntry(op.Name)
+			r.stats["library removals through the knowledge base's own method"]++
+		} else {
+			r.lib.RemoveRuleEntry(op.Name, name, ver)
+		}
 		if sk != nil {
 			if _, ok := sk.active[op.Name]; ok {
 				delete(sk.active, op.Name)
@@ -593,7 +599,7 @@ func (g *c16Gen) next(sh *shadow, nInsts int, nKeys int, i int) C16Op {
 		case i == 0 || w < 34:
 			op = g.buildOp(sh, nKeys)
 		case w < 50:
-			op = C16Op{Kind: "removelib", KB: p.intn(nKeys), Name: pick(p, c16Names)}
+			op = C16Op{Kind: "removelib", KB: p.intn(nKeys), Name: pick(p, c16Names), ViaKB: p.chance(1, 2)}
 			if sk := sh.kbs[op.KB]; sk != nil && len(sk.active) > 0 && p.chance(2, 3) {
 				var ks []string
 				for k := range sk.active {
@@ -780,7 +786,7 @@ func c16GallinaCase(id int, steps []C16Step) string {
 	return fmt.Sprintf("{| c16_id := %d; c16_fuel := %d%%nat; c16_steps := [\n  %s\n ] |}", id, c16MaxCycle+1, strings.Join(ss, ";\n  "))
 }
 
-// former witnesses of D8 (fixed by engine commit 01c7ce8) and D10 (4ed034e): they run first on every check and must pass
+// former witnesses of D8 (fixed by engine commit 01c7ce8), D9 (b987a8c) and D10 (4ed034e): they run first on every check and must pass
 func c16FixedRegressions() []C16Hist {
 	r0 := C16Rule{Name: "R0", Sal: 1, Body: c16Payloads[0]}
 	r1 := C16Rule{Name: "R1", Sal: 5, Body: c16Payloads[1]}
@@ -797,6 +803,15 @@ func c16FixedRegressions() []C16Hist {
 			{Kind: "storeload", KB: 0, Fact: 7},
 			{Kind: "newinst", KB: 0, Fact: 5},
 			{Kind: "exec", Inst: 1, Fact: 7}}},
+		// D9 (b987a8c): a name removed, built again and removed again on the library's knowledge base itself: instances must
+		// still be created, and neither R1 may fire
+		{Ops: []C16Op{
+			{Kind: "build", KB: 0, Fact: 7, Rules: []C16Rule{r0, r1}},
+			{Kind: "removelib", KB: 0, Name: "R1", Fact: 7, ViaKB: true},
+			{Kind: "build", KB: 0, Fact: 7, Rules: []C16Rule{{Name: "R1", Sal: 9, Body: c16Payloads[2]}}},
+			{Kind: "removelib", KB: 0, Name: "R1", Fact: 7, ViaKB: true},
+			{Kind: "newinst", KB: 0, Fact: 7},
+			{Kind: "exec", Inst: 0, Fact: 7}}},
 		// D10a: a rejected duplicate with expressions of its own; instances must still be created, R0 (payload 0) stays in force
 		{Ops: []C16Op{
 			{Kind: "build", KB: 0, Fact: 7, Rules: []C16Rule{r0}},
